@@ -211,8 +211,27 @@ class CFront:
         if not out:
             raise AnalysisError("anchor function vanished: %s:%s" % (rel, name))
         for n in out:
+            if not n.get("_inlined_done"):
+                n["_inlined_done"] = True
+                try:
+                    inline_new_helpers(self, rel, n)
+                except AnalysisError:
+                    raise
             _canonical_locals(rel, name, n)
         return out if all_defs else out[0]
+
+    def raw_function(self, rel, name):
+        """first definition of `name` in rel, untouched by helper inlining (None when there is none)"""
+        try:
+            objs = self.dump(rel, name)
+        except AnalysisError:
+            return None
+        for o in objs:
+            for n in walk(o):
+                if n.get("kind") in ("FunctionDecl",) and n.get("name") == name and body_of(n) is not None:
+                    f_ = ((n.get("loc") or {}).get("file") or (n.get("range", {}).get("begin", {}) or {}).get("file"))
+                    return n
+        return None
 
 
 # -------------------------------------------------------------------------------------------
@@ -474,6 +493,199 @@ def get(repo):
     if repo not in _cf_cache:
         _cf_cache[repo] = CFront(repo)
     return _cf_cache[repo]
+
+
+# -------------------------------------------------------------------------------------------
+# helpers extracted by a refactoring
+# -------------------------------------------------------------------------------------------
+# The rules are written against the functions of today's tree (sa/cfuncs_fixture.json lists, per translation unit, the functions
+# defined in it today).  A function of the same file that is *not* in that list and is called from an analysed function is taken for
+# what it almost always is - a block or an expression moved out into a helper - and is expanded at its call sites before any rule
+# looks at the caller, so that the rules see the same statements and expressions as before the extraction (and a defect hidden in
+# such a helper is seen as well).  Only calls whose expansion is exact are expanded: the helper's parameters are never assigned in
+# it, it returns at most once, at its end; anything else is left as a call.
+_KNOWN_FUNCS = None
+_INLINE_SEQ = [0]
+
+
+def known_functions(rel):
+    global _KNOWN_FUNCS
+    if _KNOWN_FUNCS is None:
+        try:
+            with open(os.path.join(os.path.dirname(os.path.abspath(__file__)), "cfuncs_fixture.json")) as f:
+                _KNOWN_FUNCS = json.load(f)
+        except Exception:
+            _KNOWN_FUNCS = {}
+    return _KNOWN_FUNCS.get(rel)
+
+
+def defined_function_names(repo, rel):
+    """names that look like function definitions in the text of rel (a cheap pre-filter; confirmed through clang before use)"""
+    import re as _re
+    try:
+        with open(os.path.join(repo, rel), errors="replace") as f:
+            txt = f.read()
+    except OSError:
+        return set()
+    txt = _re.sub(r"/\*.*?\*/", " ", txt, flags=_re.S)
+    txt = _re.sub(r"//[^\n]*", " ", txt)
+    names = set()
+    for m in _re.finditer(r"(?m)^[ \t]*(?:[A-Za-z_][\w:<>,\*&\s]*?[\s\*&])([A-Za-z_]\w*)\s*\(([^;{}()]|\([^()]*\))*\)\s*(?:const\s*)?\{", txt):
+        if m.group(1) not in ("if", "for", "while", "switch", "return", "else", "sizeof", "catch"):
+            names.add(m.group(1))
+    return names
+
+
+def _copy(n):
+    return json.loads(json.dumps(n))
+
+
+def _param_is_written(callee, pid):
+    for n in walk(body_of(callee)):
+        k = n.get("kind")
+        if k in ("BinaryOperator", "CompoundAssignOperator") and (n.get("opcode") == "=" or k == "CompoundAssignOperator"):
+            if ref_id(kids(n)[0]) == pid:
+                return True
+        if k == "UnaryOperator" and n.get("opcode") in ("++", "--", "&") and ref_id(kids(n)[0]) == pid:
+            return True
+    return False
+
+
+def _instantiate(callee, args, caller_names):
+    """copy of the callee's body with fresh ids, parameters replaced by the argument expressions, clashing local names suffixed"""
+    _INLINE_SEQ[0] += 1
+    tag = "_inl%d" % _INLINE_SEQ[0]
+    ps = fparams(callee)
+    if len(ps) != len(args):
+        return None
+    if any(_param_is_written(callee, p_.get("id")) for p_ in ps):
+        return None
+    sub = {p_.get("id"): a_ for p_, a_ in zip(ps, args)}
+    body = _copy(body_of(callee))
+    local_ids = {n.get("id") for n in walk(body) if n.get("kind") == "VarDecl"}
+    rename = {}
+    for n in walk(body):
+        if n.get("kind") == "VarDecl" and n.get("name") in caller_names:
+            rename[n.get("id")] = n.get("name") + tag
+
+    def fix(n):
+        if not isinstance(n, dict):
+            return n
+        if n.get("kind") == "DeclRefExpr":
+            rid = (n.get("referencedDecl") or {}).get("id")
+            if rid in sub:
+                return {"id": str(n.get("id")) + tag, "kind": "ParenExpr", "type": n.get("type"), "valueCategory": n.get("valueCategory"), "range": n.get("range"), "loc": n.get("loc"),
+                        "inner": [_copy(sub[rid])]}
+            if rid in local_ids:
+                n["referencedDecl"]["id"] = str(rid) + tag
+                if rid in rename:
+                    n["referencedDecl"]["name"] = rename[rid]
+        if n.get("kind") == "VarDecl" and n.get("id") in local_ids:
+            if n["id"] in rename:
+                n["name"] = rename[n["id"]]
+            n["id"] = str(n["id"]) + tag
+        elif "id" in n and n.get("kind") != "ParenExpr":
+            n["id"] = str(n["id"]) + tag
+        if n.get("inner"):
+            n["inner"] = [fix(x) for x in n["inner"]]
+        return n
+    return fix(body)
+
+
+def _returns(body):
+    return [n for n in walk(body) if n.get("kind") == "ReturnStmt"]
+
+
+def inline_new_helpers(cf, rel, fn, depth=0):
+    known = known_functions(rel)
+    if known is None or depth > 3:
+        return
+    body = body_of(fn)
+    if body is None:
+        return
+    cand = None
+    changed = False
+    parent = {}
+    for n in walk(fn):
+        for k in kids(n):
+            if "id" in k:
+                parent[k["id"]] = n
+    caller_names = {n.get("name") for n in walk(fn) if n.get("kind") in ("VarDecl", "ParmVarDecl") and n.get("name")}
+    for call in [n for n in walk(body) if n.get("kind") == "CallExpr" and "id" in n]:
+        name = callee_name(call)
+        if not name or name in known or name == fn.get("name"):
+            continue
+        if cand is None:
+            cand = defined_function_names(cf.repo, rel)
+        if name not in cand:
+            continue
+        callee = cf.raw_function(rel, name)
+        if callee is None:
+            continue
+        cbody = body_of(callee)
+        rets = _returns(cbody)
+        stmts = kids(cbody)
+        args = call_args(call)
+        # where does the call stand?
+        up = parent.get(call["id"])
+        chain = [call]
+        while up is not None and up.get("kind") in ("ImplicitCastExpr", "ExprWithCleanups", "ParenExpr", "MaterializeTemporaryExpr", "CXXBindTemporaryExpr"):
+            chain.append(up)
+            up = parent.get(up["id"])
+        top = chain[-1]
+        is_stmt = up is not None and up.get("kind") in ("CompoundStmt", "IfStmt", "ForStmt", "WhileStmt", "DoStmt", "CaseStmt", "DefaultStmt", "LabelStmt") and not (
+            up.get("kind") == "IfStmt" and kids(up) and kids(up)[0] is top) and not (up.get("kind") in ("ForStmt", "WhileStmt") and kids(up) and kids(up)[-1] is not top)
+        if len(stmts) == 1 and stmts[0].get("kind") == "ReturnStmt" and kids(stmts[0]):
+            # expression helper: the call is the returned expression with the arguments in place of the parameters
+            inst = _instantiate(callee, args, caller_names)
+            if inst is None:
+                continue
+            expr = kids(kids(inst)[0])[0]
+            new = {"id": str(call["id"]) + "_x", "kind": "ParenExpr", "type": call.get("type"), "valueCategory": call.get("valueCategory"), "range": call.get("range"), "loc": call.get("loc"), "inner": [expr]}
+            call.clear()
+            call.update(new)
+            changed = True
+            continue
+        if is_stmt and (not rets or (len(rets) == 1 and stmts and stmts[-1] is rets[0] and not kids(rets[0]))) and "void" in qtype(callee).split("(")[0]:
+            inst = _instantiate(callee, args, caller_names)
+            if inst is None:
+                continue
+            if kids(inst) and kids(inst)[-1].get("kind") == "ReturnStmt":
+                inst["inner"] = [x for x in inst["inner"] if x is not kids(inst)[-1]]
+            top.clear()
+            top.update(inst)
+            changed = True
+            continue
+        # value helper with locals: `T v = f(..);` / `v = f(..);` as a statement of a block, helper = statements + one trailing `return E;`
+        if len(rets) == 1 and stmts and stmts[-1] is rets[0] and kids(rets[0]):
+            holder = up
+            node = top
+            while holder is not None and holder.get("kind") not in ("CompoundStmt",):
+                hk = holder.get("kind")
+                # the call must be evaluated whenever the enclosing statement is: not under ?:, && / ||, a loop header or a nested statement
+                if hk in ("ConditionalOperator", "BinaryConditionalOperator", "LambdaExpr", "IfStmt", "ForStmt", "WhileStmt", "DoStmt", "SwitchStmt", "CaseStmt", "CXXForRangeStmt") or \
+                        (hk == "BinaryOperator" and holder.get("opcode") in ("&&", "||", ",")) or hk.endswith("Stmt") and hk not in ("DeclStmt", "ReturnStmt"):
+                    holder = None
+                    break
+                node = holder
+                holder = parent.get(holder["id"]) if "id" in holder else None
+            if holder is None:
+                continue
+            inst = _instantiate(callee, args, caller_names)
+            if inst is None:
+                continue
+            pre = kids(inst)[:-1]
+            expr = kids(kids(inst)[-1])[0]
+            new = {"id": str(call["id"]) + "_x", "kind": "ParenExpr", "type": call.get("type"), "valueCategory": call.get("valueCategory"), "range": call.get("range"), "loc": call.get("loc"), "inner": [expr]}
+            call.clear()
+            call.update(new)
+            idx = next(i for i, x in enumerate(holder["inner"]) if x is node)
+            holder["inner"][idx:idx] = pre
+            for x in pre:
+                parent[x["id"]] = holder
+            changed = True
+    if changed:
+        inline_new_helpers(cf, rel, fn, depth + 1)
 
 
 # -------------------------------------------------------------------------------------------
